@@ -78,6 +78,7 @@ func main() {
 		os.Exit(2)
 	}
 	c := evid.New(id, tier, p.level)
+	evid.StartWatchdog(c)
 	// a panic of the code under test that a check did not anticipate is a finding, not a crash
 	enum.OnPanic = func(r interface{}, stack string) {
 		// the innermost non-runtime frame decides whose panic it is: the library's (a finding) or
